@@ -531,6 +531,18 @@ func runShutdown(c *run.Ctx, state string, actions []string, parkHook bool, pend
 		time.Sleep(5 * time.Millisecond)
 	}
 	if len(left) != 0 {
+		// left for good, or only slow to end? the same stacks with nothing going on
+		// while the process gets processor time is what a leak looks like
+		wedged, _ := w.Diagnose(1500 * time.Millisecond)
+		if again := sim.MqttStacks(); len(again) == 0 {
+			left = nil
+		} else if !wedged {
+			c.Inconclusive("library goroutines slow to end after shutdown")
+			c.Spoiled()
+			left = nil
+		}
+	}
+	if len(left) != 0 {
 		c.Violate("goroutine-left-behind", fmt.Sprintf("%d goroutines with library frames remain after shutdown", len(left)), map[string]any{"stacks": left, "d": detail()})
 		c.Spoiled()
 	}
